@@ -37,6 +37,7 @@ type SliceOpts struct {
 	ThroughBinOps bool // treat arithmetic as transparent (both operands)
 	ThroughCalls  bool // treat every unknown call as transparent in receiver+args
 	ConstLeafOK   bool // constants are silently accepted (not leaves)
+	At            ssa.Instruction // if set: stores into local variables that happen strictly after At (dominated by it) are ignored
 	NoWrapperArgs bool // for wrappers only follow receiver/first arg
 }
 
@@ -98,13 +99,13 @@ func (e *Engine) Slice(v ssa.Value, opts SliceOpts, visit func(ssa.Value) Verdic
 				case *ssa.Alloc:
 					n := 0
 					for _, r := range *a.Referrers() {
-						if st, ok := r.(*ssa.Store); ok && st.Addr == a {
+						if st, ok := r.(*ssa.Store); ok && st.Addr == a && !after(opts.At, st) {
 							walk(st.Val, depth+1, ctx)
 							n++
 						}
 					}
 					// struct allocs filled field by field: follow field stores too
-					n += e.walkFieldStores(a, func(val ssa.Value) { walk(val, depth+1, ctx) })
+					n += e.walkFieldStoresAt(a, opts.At, func(val ssa.Value) { walk(val, depth+1, ctx) })
 					if n == 0 {
 						leaf(v)
 					}
@@ -125,7 +126,7 @@ func (e *Engine) Slice(v ssa.Value, opts SliceOpts, visit func(ssa.Value) Verdic
 				for _, r := range *base.Referrers() {
 					if fa, ok := r.(*ssa.FieldAddr); ok && fa.Field == x.Field {
 						for _, rr := range *fa.Referrers() {
-							if st, ok := rr.(*ssa.Store); ok && st.Addr == fa {
+							if st, ok := rr.(*ssa.Store); ok && st.Addr == fa && !after(opts.At, st) {
 								walk(st.Val, depth+1, ctx)
 								n++
 							}
@@ -178,12 +179,12 @@ func (e *Engine) Slice(v ssa.Value, opts SliceOpts, visit func(ssa.Value) Verdic
 		case *ssa.Alloc:
 			n := 0
 			for _, r := range *x.Referrers() {
-				if st, ok := r.(*ssa.Store); ok && st.Addr == x {
+				if st, ok := r.(*ssa.Store); ok && st.Addr == x && !after(opts.At, st) {
 					walk(st.Val, depth+1, ctx)
 					n++
 				}
 			}
-			n += e.walkFieldStores(x, func(val ssa.Value) { walk(val, depth+1, ctx) })
+			n += e.walkFieldStoresAt(x, opts.At, func(val ssa.Value) { walk(val, depth+1, ctx) })
 			if n == 0 {
 				leaf(v)
 			}
@@ -306,12 +307,21 @@ func (e *Engine) Slice(v ssa.Value, opts SliceOpts, visit func(ssa.Value) Verdic
 }
 
 // walkFieldStores: for an Alloc of struct type, visit all values stored into any of its fields.
+// after: instruction st happens strictly after `at` on every path (at dominates st); nil at = never.
+func after(at ssa.Instruction, st ssa.Instruction) bool {
+	return at != nil && at.Parent() == st.Parent() && at != st && Dominates(at, st)
+}
+
 func (e *Engine) walkFieldStores(a *ssa.Alloc, f func(ssa.Value)) int {
+	return e.walkFieldStoresAt(a, nil, f)
+}
+
+func (e *Engine) walkFieldStoresAt(a *ssa.Alloc, at ssa.Instruction, f func(ssa.Value)) int {
 	n := 0
 	for _, r := range *a.Referrers() {
 		if fa, ok := r.(*ssa.FieldAddr); ok {
 			for _, rr := range *fa.Referrers() {
-				if st, ok := rr.(*ssa.Store); ok && st.Addr == fa {
+				if st, ok := rr.(*ssa.Store); ok && st.Addr == fa && !after(at, st) {
 					f(st.Val)
 					n++
 				}
